@@ -16,6 +16,7 @@ def run(ck, tier):
     ck.rule('R3', 'garbage before a start delimiter is dropped (the start > 0 branch re-slices the buffer)')
     ck.rule('R4', 'serial / datagram receive loops reset the framer or end the connection on every exception from the framer')
     n1 = n2 = n3 = 0
+    n3b = []
     for kind in KINDS:
         cls, f, fps = framer_paths(cx, kind)
         ck.saw('functions', f.qn)
@@ -49,12 +50,29 @@ def run(ck, tier):
                         ck.ob('R3', f.qn, 'bytes before the start delimiter are dropped', bool(nxt) and nxt[0][1] == 'slice',
                               detail='garbage-prefix-kept', loc=cx.floc(f),
                               message='%s framer finds the start delimiter at an offset > 0 but does not drop the bytes before it' % kind)
+            # the skip cuts at the FIRST start delimiter: everything from the first delimiter on may be a valid frame
+            for i, sk in fp.shrinks:
+                ev = fp.path.ev[i]
+                v = getattr(ev, '_sub', None)
+                if sk != 'slice' or not isinstance(v, ast.Subscript) or not isinstance(v.slice, ast.Slice) or v.slice.lower is None:
+                    continue
+                lo = v.slice.lower
+                searches = [c for c in ast.walk(lo) if isinstance(c, ast.Call) and isinstance(c.func, ast.Attribute)
+                            and c.func.attr in ('find', 'rfind', 'index', 'rindex') and c.args and U(c.args[0]) == 'self._start']
+                for c in searches:
+                    n3b.append(1)
+                    first = c.func.attr in ('find', 'index') and len(c.args) == 1 and U(lo) == U(c)
+                    ck.ob('R3', f.qn, 'garbage skip cuts the buffer at the first start delimiter', first,
+                          detail='skip-not-to-first-delimiter %s' % c.func.attr, loc=cx.floc(f, ev.node),
+                          message='%s framer skips to `%s`: complete frames that precede the last start delimiter in the buffer are thrown away as garbage'
+                                  % (kind, U(lo)[:60]))
         if kind in ('ascii', 'binary'):
             ck.ob('R3', f.qn, 'framer has a skip-to-start-delimiter branch', any(
                 ev.kind == 'cond' and '.find(' in U(ev._sub) for fp in fps for ev in fp.path.ev), detail='no-delimiter-search', loc=cx.floc(f))
     ck.floor('R1', n1, 3, 'failed-integrity paths')
     ck.floor('R2', n2, 3, 'foreign-unit paths')
     ck.floor('R3', n3, 2, 'garbage-prefix paths')
+    ck.floor('R3', len(n3b), 2, 'garbage-skip slices traced to their delimiter search')
     n4 = 0
     for fe in FRONTENDS:
         if fe[0] not in ('sync-single', 'sync-datagram', 'asyncio-datagram', 'sync-stream', 'asyncio-stream'):
